@@ -30,6 +30,16 @@ fn main() {
     ctx.run_slice(Slice::new("identity/twist/singleton[lists<=3 over 2 labels ^2]", no * no, |i, loc| check_constructors(&objs[(i / no) as usize], &objs[(i % no) as usize], loc)));
     let cs = Spec { n_min: 0, n_max: 3, e_min: 0, e_max: 0, ks: 0, kt: 0, lw: 2, lx: 1, a: 3, b: 3, q: 0 }.universe();
     ctx.run_slice(Slice::new("spider[cospans <=3 nodes, legs <=3]", cs.count(), |i, loc| check_spider(&cs.get_open(i), loc)));
+    // larger inputs: round trips on structured diagrams, lax composition along long boundaries (structured gluing pairs)
+    let st: Vec<_> = ohmc::props::structured::shapes(4).into_iter().map(|x| x.1).collect();
+    ctx.run_slice(Slice::new(format!("round-trips-structured[{} diagrams]", st.len()), st.len() as u64, |i, loc| check_roundtrip_strict(&st[i as usize], loc)));
+    let gp = ohmc::props::structured::gluing_pairs(8, 5);
+    ctx.run_slice(Slice::new(format!("pairs-structured-gluing[{} pairs]", gp.len()), gp.len() as u64, |i, loc| {
+        let (f, g) = (&gp[i as usize].1, &gp[i as usize].2);
+        // f carries two pending unifications of its own
+        let lf = PLax { open: f.clone(), quot: (1..f.nodes.len()).map(|v| (v, v - 1)).take(2).collect() };
+        check_pair(&lf, &PLax::strict(g.clone()), loc)
+    }).heavy());
     let meta = Meta {
         rule: "every strict diagram (from_strict/to_strict round trips as exact data, both directions); every ordered pair of label-consistent lax diagrams with pending unifications (compose defined iff types match, lax_compose iff arities match, both strictify to the strict composite up to iso; tensor; tensor_assign / append / coproduct_assign equal the pure forms as data); every label-consistent lax diagram (dagger, to_strict vs the reference quotient); all pairs of object lists (identity, twist, singleton); all cospans (spider)".into(),
         bounds: "round trips: <=3 nodes, <=1-2 edges; pairs: <=2 nodes, <=1 edge, interfaces <=2, <=1 (quick) / 2 pending pairs; singles: <=3 nodes, <=2 pending pairs; object lists <=3; cospans <=3 nodes with legs <=3".into(),
